@@ -160,21 +160,32 @@ def Drain.run : Drain → List Nat → List (List Nat)
 
 /-! ## 2c. `activeAppendItems`: which prepared items are handed to the Appender
 
-  Mirrors the loop as coded: `active` stays a nil slice until the first inactive item, at which point the
-  prefix `items[:i]` is copied — but for i = 0 that copy is `append(nil, items[:0]...)`, which is STILL nil,
-  so the `active == nil` branch runs again at the next inactive item and copies `items[:i]` again. -/
+  As coded (commit adc9a053f): the live prefix `items[:i]` is copied exactly once, at the first inactive
+  item (`if !filtered { filtered = true; active = append(make(…), items[:i]...) }`); live items seen
+  afterwards are appended.  The loop before that repair tested `active == nil` instead, and the copy of an
+  empty prefix stays nil — kept below as `activeGoPreFix`. -/
 
 /-- flags: `true` = the item is inactive (context cancelled / deadline passed) -/
-def activeGo : List Bool → Nat → Option (List Nat) → Bool → List Nat
+def activeGo : List Bool → Nat → List Nat → Bool → List Nat
+  | [], n, active, filtered => if filtered then active else List.range n
+  | true :: r, i, active, filtered =>
+    activeGo r (i + 1) (if filtered then active else List.range i) true
+  | false :: r, i, active, filtered =>
+    activeGo r (i + 1) (if filtered then active ++ [i] else active) filtered
+
+def activeItems (flags : List Bool) : List Nat := activeGo flags 0 [] false
+
+/-- the loop BEFORE the repair: `active` (a nil slice = `none`) is re-tested at every inactive item -/
+def activeGoPreFix : List Bool → Nat → Option (List Nat) → Bool → List Nat
   | [], n, active, filtered => if filtered then active.getD [] else List.range n
   | true :: r, i, active, _ =>
-    activeGo r (i + 1) (match active with
+    activeGoPreFix r (i + 1) (match active with
       | none => if i = 0 then none else some (List.range i)
       | some a => some a) true
   | false :: r, i, active, filtered =>
-    activeGo r (i + 1) (if filtered then some (active.getD [] ++ [i]) else active) filtered
+    activeGoPreFix r (i + 1) (if filtered then some (active.getD [] ++ [i]) else active) filtered
 
-def activeItems (flags : List Bool) : List Nat := activeGo flags 0 none false
+def activeItemsPreFix (flags : List Bool) : List Nat := activeGoPreFix flags 0 none false
 
 /-- what it should be: the live items, in order -/
 def liveFrom : List Bool → Nat → List Nat
